@@ -234,7 +234,9 @@ class C19(F.Check):
                          ('none-values', {'http': None, 'https': None}, None, None),
                          ('env', None, {'HTTP_PROXY': P, 'HTTPS_PROXY': P2}, 0 if scheme == 'http' else 3),
                          ('env-empty', None, {}, None)]
-                for cname, mapping, env, used in cases:
+                cases.append(('empty-but-env-set', {}, {'HTTP_PROXY': P, 'HTTPS_PROXY': P2}, None))      # {} disables proxying
+            cases.append(('none-values-env-set', {'http': None, 'https': None}, {'HTTP_PROXY': P, 'HTTPS_PROXY': P2}, None))
+            for cname, mapping, env, used in cases:
                     world = W.World(Tunnel([[OK200]]), max_waits=100)
                     world.environ = dict(env or {})
                     with world:
@@ -264,8 +266,26 @@ class C19(F.Check):
             res.samples.append({'offsets': len(OK200)})
         elif job['k'] == 'faults':
             res.covered.add('fault')
+            crlf_chunks = [b'HTTP/1.1 200 Connection established', b'\r\n', b'Proxy-Agent: lv', b'\r\n', b'\r\n']
             for ti in (0, 2):
                 for pi in (0, 2, 3):
+                    # an interrupted read (EINTR) at every recv of the proxy phase, for several segmentations of the answer
+                    for seg_name, seg in (('crlf-chunks', crlf_chunks), ('bytes', [OK200[i:i + 1] for i in range(len(OK200))]),
+                                          ('line-chunks', [OK200[:37], OK200[37:39], OK200[39:]])):
+                        w0, r0, e0, c0 = self.one(ti, pi, list(seg))
+                        recvs = [o[0] for o in w0.ops if o[3] == 'recv']
+                        for opi in recvs[:len(seg)]:
+                            w2, run2, ev2, conns2 = self.one(ti, pi, list(seg), faults={opi: 'eintr'})
+                            names = [e.name for e in ev2]
+                            problems = []
+                            if names != ['connecting', 'connect_fail']:
+                                problems.append(('connectfail-expected', 'EINTR at recv op %d of the proxy phase (%s): events %r' % (opi, seg_name, names)))
+                            for c in conns2:
+                                wire = bytes(c.written)
+                                k = wire.find(b'\r\n\r\n')
+                                if k >= 0 and wire[k + 4:]:
+                                    problems.append(('handshake-leaked', 'bytes after the CONNECT although the proxy answer was never completed: %r' % wire[k + 4:][:40]))
+                            self.account(res, {'k': 'fault', 'target': ti, 'proxy': pi, 'op': opi, 'kind': 'eintr', 'seg': seg_name}, run2, ev2, problems, 'fault:eintr')
                     world, run, events, conns = self.one(ti, pi, [OK200])
                     nops = [o for o in world.ops]
                     # proxy phase = every operation up to and including the read that completed the answer
